@@ -57,7 +57,8 @@ def _compiled_polynomial(ctx, model):
         raise AnalysisError("precedence constants not found")
     hshapes = kernels.DEEP_EXPONENT_SHAPES if ctx.tier == "thorough" else \
         kernels.EXPONENT_SHAPES
-    wit = kernels.horner_text_rule(mem.node, consts, shapes=hshapes)
+    wit = kernels.horner_text_rule(mem.node, consts, shapes=hshapes,
+                                   class_node=mem.owner.node)
     ctx.ob("P/CompileMapper.map_polynomial/text-value", not wit,
            mem.owner.module.loc(mem.node),
            "the generated text denotes sum coeff * base**exp on "
@@ -106,7 +107,26 @@ def _exporter(ctx, model):
     hm = model.lookup(mp, "_map_multi_children_op")
     if hm is None or hm.kind != "func":
         raise AnalysisError("_map_multi_children_op not found")
-    fold = _analyse_fold(hm, model.inlined(hm.node))
+    try:
+        fwit = _judge_fold(model.inlined(hm.node), hm.owner.module.tree)
+    except AnalysisError as e:
+        fwit = None
+        ctx.extra["judge_unavailable:_map_multi_children_op"] = str(e)
+    if fwit is not None:
+        ctx.ob("P0/exporter/_map_multi_children_op/in-order", not fwit, where(hm),
+               "the fold interpreted on 1..7 children: every mapped child is an "
+               "operand of the nest of ast.BinOp nodes exactly once, in the "
+               "order of the children, under the operator handed in"
+               if not fwit else
+               "_map_multi_children_op: " + "; ".join(fwit[:2]))
+    try:
+        fold = _analyse_fold(hm, model.inlined(hm.node))
+    except AnalysisError:
+        if fwit is None or fwit:
+            raise
+        fold = "in-order"
+    if fwit is not None and not fwit:
+        fold = "in-order"       # (shape not recognised; the interpretation decides)
     ctx.ob("E/exporter/_map_multi_children_op/order", fold == "in-order",
            where(hm),
            "children are exported in order and folded a op (b op (c ...))"
@@ -254,6 +274,88 @@ def _export_constant(ctx, model, mp):
 def model_resolve(model, mp, n):
     from ..model import resolve_handler
     return resolve_handler(model, mp, n)
+
+
+def _judge_fold(fn, module_tree):
+    """interpretive judge (pv/absint.py).  -> witnesses"""
+    from ..absint import Interp, Opaque, Raised, StepBound, module_env
+
+    class Bin:
+        def __init__(self, left, op, right):
+            self.left, self.op, self.right = left, op, right
+
+    def leaves(x, ops):
+        if isinstance(x, Bin):
+            ops.append(x.op)
+            return leaves(x.left, ops) + leaves(x.right, ops)
+        return [x]
+
+    class Mp:
+        pass
+
+    class OpCls:
+        def __init__(self, name):
+            self.name = name
+
+        def __call__(self):
+            return OpInst(self.name)
+
+    class OpInst:
+        def __init__(self, name):
+            self.name = name
+
+    def type_(it, node, a, k):
+        if isinstance(a[0], OpInst):
+            return OpCls(a[0].name)
+        raise AnalysisError("type() of a value")
+
+    def isinst(it, node, a, k):
+        what = getattr(a[1], "what", "")
+        if what.split(" ")[-1] == "type":
+            return isinstance(a[0], OpCls)
+        if what.split(".")[-1] in ("operator", "AST"):
+            return isinstance(a[0], OpInst)
+        from ..absint import default_isinstance
+        r = default_isinstance(a[0], a[1])
+        if r is None:
+            raise AnalysisError(f"isinstance(..., {a[1]!r})")
+        return r
+    glob = module_env(module_tree, {"ast": Opaque("ast")})
+    wit = []
+    for n in range(1, 8):
+        kids = tuple(("child", i) for i in range(n))
+        mp = Mp()
+
+        def attrs(it, node, base, attr, _mp=mp):
+            if base is _mp and attr == "rec":
+                return lambda c, *a, **k: ("m", c[1])
+            if isinstance(base, Opaque) and base.what == "ast" and attr == "BinOp":
+                return lambda *a, **k: Bin(
+                    *(list(a) + [k[x] for x in ("left", "op", "right")
+                                 if x in k])[:3]) if not k else Bin(
+                    k.get("left", a[0] if a else None), k.get("op"),
+                    k.get("right"))
+            return Opaque(ast.unparse(node))
+        it = Interp(attrs=attrs, globals_=glob, max_steps=20000,
+                    calls={"type": type_, "isinstance": isinst})
+        try:
+            got = it.call_function(fn, [mp, kids, OpInst("OP")], dict(glob))
+        except Raised as r:
+            wit.append(f"{n} children: raises at line {r.node.lineno}")
+            continue
+        except StepBound:
+            wit.append(f"{n} children: does not terminate")
+            continue
+        ops = []
+        lv = leaves(got, ops)
+        if lv != [("m", i) for i in range(n)]:
+            wit.append(f"{n} children: operands reach the ast.BinOp nest as "
+                       f"{[x[1] if isinstance(x, tuple) else x for x in lv]}, "
+                       f"not 0..{n - 1} in order")
+        elif any(not (isinstance(o, OpInst) and o.name == "OP") for o in ops):
+            wit.append(f"{n} children: an ast.BinOp is built with another "
+                       "operator than the one handed in")
+    return wit
 
 
 def _analyse_fold(hm, fn=None):
